@@ -1,10 +1,10 @@
 SPECIFICATION Spec
 CONSTANTS
-  MaxN = 3
-  Templates <- TplC17d
+  MaxN = 2
+  Templates <- TplC17r
   Bundles <- NoBundle
-  Ctxs <- WideTightNone
-  Reqs <- FullReq
+  Ctxs <- Wide
+  Reqs <- AllReqs
   Tries <- One
   Hists <- NoHist
   BackoffCfgs <- NoBoCfgs
